@@ -37,7 +37,7 @@ NUM_RE = re.compile(r'^\s*(\d+) (.*)$')
 def required_cells(tier):
     return ['reparse', 'lines-once-in-order', 'prefix:off', 'want:off', 'linenos:doctest-relative',
             'linenos:file-relative', 'wrapper:google', 'wrapper:freeform', 'multi-line-want', 'eval-mode', 'single-mode',
-            'digits:1', 'digits:2', 'digits:3', 'digits:4', 'display-leaves-doctest-unchanged', 'corpus:repo'] + (
+            'digits:1', 'digits:2', 'digits:3', 'digits:4', 'display-leaves-doctest-unchanged', 'corpus:repo', 'want-with-trailing-blanks'] + (
                 ['corpus:stdlib'] if tier == 'thorough' else [])
 
 
@@ -127,6 +127,16 @@ def check_case(ctx, index, case_seed):
             observed=text.split('\n'), expected=exp_lines)
         return
     ctx.cell('lines-once-in-order')
+    # the want lines as the docstring spells them (trailing blanks included), by construction
+    placed = [w.lstrip() for si in sorted(info['wants']) for w in info['wants'][si]]
+    shown = [w.lstrip() for p in dt._parts for w in (p.want_lines or [])]
+    if placed != shown:
+        k = next((j for j, (a, b) in enumerate(zip(placed, shown)) if a != b), min(len(placed), len(shown)))
+        bad('want-text', 'want line %d of the docstring is %r, the parsed / displayed doctest has %r' % (
+            k, placed[k] if k < len(placed) else None, shown[k] if k < len(shown) else None))
+        return
+    if any(w != w.rstrip() for w in placed):
+        ctx.cell('want-with-trailing-blanks')
     # prefix off
     t2 = dt.format_src(linenos=False, colored=False, want=True, prefix=False)
     exp2 = []
